@@ -331,7 +331,7 @@ pub fn run(mode: Mode) -> i32 {
     let prop = if mode == Mode::Leak { "C17" } else { "C02" };
     let mut ctx = Ctx::new(prop, "fault_enumeration");
     let seed = ctx.seed;
-    let maxlen = ctx.tier.pick(130usize, 300);
+    let maxlen = ctx.tier.pick(160usize, 400);
     let modestr = if mode == Mode::Leak { "leak" } else { "tamper" };
     ctx.rule = format!("single-fault enumeration: for every base case (family in {{secretbox, box, sealedbox, stream}} x message length 0..={} x key alphabet) every member of the fault family — each bit of the wire (tag/MAC, body, sealed-box ephemeral key, stream tag byte), each bit of nonce / symmetric or precomputed key / stream header / associated data, AD present<->absent, truncation to every shorter length, extension by 1..=17,32,64 bytes of 00/ff/repeat-last — plus the untampered control, is applied once and presented to every open form of that family ({} AEAD forms + 2 stream forms); {}; non-trivial = (base, fault, form) triple executed (NA pairs, e.g. a detached form on a wire shorter than a tag, are counted as evaluations but not as non-trivial)", maxlen, OPEN.len(),
         if mode == Mode::Leak { "oracle: after Err the caller's message buffer (prefilled with a sentinel; the submitted ciphertext for in-place forms) and the stream tag variable are byte-identical to what they were, or all zero" } else { "oracle: control => Ok(original message); every fault => Err (a panic is a violation); libsodium's verdict on the same faulty input must agree" });
